@@ -641,6 +641,9 @@ def _create_odesys(
     varbls.update(parameter_expressions or {})
     rates = rsys.rates(varbls, **(rates_kw or {}))
     compo_vecs, compo_names = rsys.composition_balance_vectors()
+    if rates_kw and "cstr_fr_fc" in rates_kw:
+        # with a feed (cstr) the amounts of the elements are not conserved:
+        compo_vecs, compo_names = None, ()
 
     odesys = SymbolicSys(
         zip(
@@ -654,7 +657,9 @@ def _create_odesys(
         param_names=parameter_symbols.keys(),
         latex_param_names=[pretty_replace(n) for n in parameter_symbols.keys()],
         linear_invariants=compo_vecs,
-        linear_invariant_names=list(map(str, compo_names)),
+        linear_invariant_names=None
+        if compo_vecs is None
+        else list(map(str, compo_names)),
         backend=backend,
         dep_by_name=True,
         par_by_name=True,
